@@ -119,7 +119,7 @@ CLAIMED = {
              "C03_released_never_slashable. Tie: a child process is SIGKILLed at every hook point of seeded histories; the restarted "
              "instance's export must cover everything returned before the kill (Lean judge), equal the model's store before or after "
              "the interrupted request, and refuse conflicting probes; call-order traces (store exit before sign) are diffed with the "
-             "model; SyncWrites is read back from the open store and the value log's O_DSYNC/fsync is checked under strace."
+             "model; SyncWrites is read back from the open store and the value log's O_DSYNC/fsync is checked under strace; record permanence: the closed store is read with badger itself after histories run with and without periodic pruning and no record may carry an expiry time."
              " Replies given before each kill are compared with the model (a request whose state write failed must carry no signature); fact obligation facts_result_switches_total (every switch over rules.Result names all enumerators or has a default)."
              " Start-up stage shared with C04 (stores with old-format records, stalled first write, periodic pruning on). Read faults on batch positions and write faults before the kill. Crafted history with batches in descending key order.",
         note="Assumed: fsynced badger data survives power loss and badger's recovery replays it; SIGKILL cannot lose page-cache data so durability itself is probed only by option read-back and syscall trace. A crash leaving a strict subset of a batch written is not modelled (badger WriteBatch atomicity assumed).",
